@@ -186,3 +186,121 @@ def family_replace_package(tier, seed):
                 a["pers"] = "PERSIST"
         out.append(scn)
     return out
+
+
+def family_realdata(tier, seed):
+    """the recorded Betfair stream files shipped with the repository's tests, traded by seeded reactive
+    strategies (harness/realdata.py): real ladders, odd reported volumes, re-images, suspensions with version
+    changes, in-play, SP reconciliation, removals, closure"""
+    from harness import realdata
+    out = []
+    plans = [(["win6", "place6"], dict(p_action=0.25, event_processing=True)), (["basic14"], dict(p_action=0.15, max_orders=20))]
+    if tier == "thorough":
+        plans = []
+        for k in range(6):
+            plans += [(["win6"], dict(p_action=0.3)), (["place6"], dict(p_action=0.3)), (["win6", "place6"], dict(p_action=0.2, event_processing=bool(k % 2))),
+                      (["basic14"], dict(p_action=0.1 + 0.05 * (k % 3), max_orders=24))]
+        plans += [(["mo2"], dict(p_action=0.004, max_orders=24)), (["self"], dict(p_action=0.004, max_orders=24)),
+                  (["mo2"], dict(p_action=0.01, max_orders=30, listener_kwargs={"inplay": True})),
+                  (["self"], dict(p_action=0.01, max_orders=30, listener_kwargs={"seconds_to_start": 600}))]
+    for i, (keys, kw) in enumerate(plans):
+        scn = realdata.scenario(keys, "real%d" % i, seed * 101 + i, **kw)
+        if scn["markets"]:
+            out.append(scn)
+    return out
+
+
+def family_place_grid(tier, seed):
+    """placement grid (the real-code counterpart of MC_SimMatch's place mode): two- and three-level books x
+    limit orders priced through / at / between / behind the levels x sizes around the level sums x
+    fill-or-kill with a minimum fill below / at / above what the levels within the limit offer, both sides,
+    best-price execution on and off.  Placements do not consume the book, so every order of a scenario
+    meets the same book."""
+    import itertools
+    books = [
+        ([[3.0, 1.0], [2.5, 5.0]], [[3.2, 2.0], [3.6, 4.0]]),
+        ([[3.0, 2.0], [2.9, 2.0], [2.0, 6.0]], [[3.1, 1.0], [3.15, 3.0], [4.0, 5.0]]),
+        ([[13.0, 1.0], [10.0, 5.0]], [[13.5, 1.0], [16.0, 5.0]]),
+        ([[3.0, 4.0]], [[3.05, 4.0]]),
+    ]
+    if tier == "thorough":
+        books += [([[2.0, 0.5], [1.99, 0.5], [1.5, 20.0]], [[2.02, 0.5], [2.04, 0.5], [3.0, 20.0]]),
+                  ([[5.0, 3.0], [4.9, 3.0]], []), ([], [[5.0, 3.0], [5.1, 3.0]])]
+    out = []
+    k = 0
+    for bi, (atb, atl) in enumerate(books):
+        for bpe in (True, False):
+            acts = []
+            n = 0
+            for side in ("BACK", "LAY"):
+                same = atb if side == "BACK" else atl
+                if not same:
+                    continue
+                best = same[0][0]
+                second = same[1][0] if len(same) > 1 else best
+                last = same[-1][0]
+                tot = sum(x[1] for x in same)
+                if side == "BACK":   # a back order takes prices >= its limit
+                    prices = [round(best + 0.1, 2), best, round((best + second) / 2, 2), second, round((second + last) / 2, 2) if len(same) > 2 else round(last - 0.1, 2), round(last - 0.2, 2)]
+                else:
+                    prices = [round(best - 0.1, 2), best, round((best + second) / 2, 2), second, round((second + last) / 2, 2) if len(same) > 2 else round(last + 0.1, 2), round(last + 0.2, 2)]
+                sizes = [round(same[0][1] / 2, 2), same[0][1], round(same[0][1] + 1.0, 2), tot, round(tot + 1.0, 2)]
+                for price, size in itertools.product(prices, sizes):
+                    if price <= 1.01:
+                        continue
+                    for fok, mf in ((False, None), (True, None), (True, round(size / 2, 2)), (True, same[0][1]), (True, round(same[0][1] + 0.5, 2))):
+                        if mf is not None and mf > size:
+                            continue
+                        n += 1
+                        a = {"op": "place", "o": "g%d" % n, "t": "tg%d" % n, "sel": 11, "side": side, "price": price, "size": size}
+                        if fok:
+                            a["tif"] = "FILL_OR_KILL"
+                            if mf is not None:
+                                a["min_fill"] = mf
+                        acts.append(a)
+            # valid ladder prices only (the validation control would refuse the others)
+            from harness.simdrv import _tick_move
+            for a in acts:
+                a["price"] = _tick_move(a["price"], 0)
+            chunk = 40
+            for c0 in range(0, len(acts), chunk):
+                k += 1
+                ups = [{"pt": 1000 * j, "status": "OPEN", "version": 1, "rstat": {"11": ["ACTIVE", 50.0, None], "12": ["ACTIVE", 50.0, None]},
+                        "books": {"11": _bk(atb, atl, []), "12": _bk([[5.0, 10.0]], [[5.5, 10.0]], [])}} for j in range(3)]
+                m = {"id": "1.100000001", "event_id": "30000001", "market_type": "WIN", "winners": 1, "bsp": True, "persistence": True, "runners": [11, 12], "updates": ups}
+                out.append({"id": "pg%d" % k, "cfg": {"bpe": bpe}, "markets": [m],
+                            "strategies": [{"name": "A", "max_live_trade_count": 1000, "max_trade_count": 100000, "script": {"1.100000001|0|book": acts[c0:c0 + chunk]}}]})
+    return out
+
+
+def family_handicap_lines(tier, seed):
+    """handicap markets: the same selection id on several handicap lines which settle differently; orders on
+    lines that are / are not the last one listed for their selection, both sides, fills on some"""
+    import itertools
+    out = []
+    runners = ["201@-1.5", "201@-0.5", "201@0.5", "202@1.5", "202@0.5", "202@-0.5"]
+    results = [
+        {"201@-1.5": "LOSER", "201@-0.5": "WINNER", "201@0.5": "WINNER", "202@1.5": "WINNER", "202@0.5": "LOSER", "202@-0.5": "LOSER"},
+        {"201@-1.5": "LOSER", "201@-0.5": "LOSER", "201@0.5": "LOSER", "202@1.5": "WINNER", "202@0.5": "WINNER", "202@-0.5": "WINNER"},
+        {"201@-1.5": "WINNER", "201@-0.5": "WINNER", "201@0.5": "WINNER", "202@1.5": "LOSER", "202@0.5": "LOSER", "202@-0.5": "LOSER"},
+    ]
+    orders_of = [["201@-1.5", "201@-0.5", "202@1.5"], ["201@0.5", "202@0.5", "202@-0.5"], ["201@-1.5", "201@0.5", "202@1.5", "202@-0.5"]]
+    k = 0
+    for res, lines in itertools.product(results, orders_of if tier == "thorough" else orders_of[:2]):
+        k += 1
+        ups = []
+        for j in range(3):
+            ups.append({"pt": 1000 * j, "status": "OPEN", "version": 1, "rstat": {r: ["ACTIVE", None, None] for r in runners},
+                        "books": {r: _bk([[2.0, 20.0]], [[2.1, 20.0]], [[2.0, 4.0 * j], [2.1, 4.0 * j]]) for r in runners}})
+        ups.append({"pt": 4000, "status": "CLOSED", "version": 2, "rstat": {r: [res[r], None, None] for r in runners}, "books": {}})
+        acts = []
+        for i, r in enumerate(lines):
+            sel, hc = r.split("@")
+            for side, price in (("BACK", 2.0), ("LAY", 2.1)):
+                acts.append({"op": "place", "o": "h%d%s" % (i, side[0]), "t": "th%d%s" % (i, side[0]), "sel": int(sel), "hc": float(hc), "side": side, "price": price, "size": 2.0 + i})
+        m = {"id": "1.100000001", "event_id": "30000001", "market_type": "ASIAN_HANDICAP", "betting_type": "ASIAN_HANDICAP_DOUBLE_LINE",
+             "winners": len([1 for r in runners if res[r] == "WINNER"]), "bsp": False,
+             "persistence": True, "runners": runners, "updates": ups}
+        out.append({"id": "hl%d" % k, "cfg": {}, "markets": [m],
+                    "strategies": [{"name": "A", "max_live_trade_count": 1000, "script": {"1.100000001|0|book": acts}}]})
+    return out
